@@ -2,6 +2,7 @@ package props
 
 import (
 	"fmt"
+	"math"
 	"os"
 	"testing"
 
@@ -207,3 +208,5 @@ func requireHooks(t *testing.T) bool {
 	}
 	return true
 }
+
+func float32frombits(b uint32) float32 { return math.Float32frombits(b) }
